@@ -449,7 +449,7 @@ class Interp:
 
     def ev_field(self, e, st):
         base = e["e"]
-        if rx.is_var(base, "self"):
+        if rx.is_var(base, "self") and not (isinstance(st.env.get("self"), dict) and st.env["self"].get("v") in ("struct", "hole", "tuple")):
             name = st.env.get("__selfprefix", "") + e["name"]
             return [(st, self._field_value(name, st))]
         out = []
@@ -1394,6 +1394,10 @@ class Interp:
                 o = argv[0]["bits"]
                 n = {"union": rv["bits"] | o, "intersection": rv["bits"] & o, "difference": rv["bits"] & ~o, "symmetric_difference": rv["bits"] ^ o}[m]
                 return [(st, dict(rv, bits=n, src=src(e)))]
+        if m in ("contains", "starts_with", "ends_with") and k == "str" and len(rv["parts"]) == 1 and rv["parts"][0][0] == "h" and isinstance(rv["parts"][0][1], dict) and rv["parts"][0][1].get("v") == "hole":
+            # an owned copy of a symbolic string (`s.to_string()`) is that string
+            rv = rv["parts"][0][1]
+            k = "hole"
         if m == "contains" and len(argv) == 1 and k in ("hole",) and argv[0].get("v") in ("closure", "fn"):
             # a character predicate: the finite set it accepts, whatever its spelling (closure, named function, matches!)
             try:
@@ -1595,6 +1599,13 @@ class Interp:
             st.fields[rv["field"]] = st.fields[rv["field"]] + [argv[0]]
             st.effects.append(("push", rv["field"], argv[0]))
             return [(st, {"v": "unit"})]
+        if k == "hole" and rv.get("kind") == "field" and m in ("get", "contains_key", "insert", "entry", "remove", "get_mut") and argv and isinstance(argv[0], dict) and argv[0].get("v") == "struct" and argv[0].get("name") in self.f.structs:
+            # a private record used as a map key is the tuple of its fields (in declaration order): derived equality and
+            # hashing compare exactly these
+            sd_ = self.f.structs[argv[0]["name"]]
+            names_ = [fl.get("name") or str(i_) for i_, fl in enumerate(sd_.get("fields", []))]
+            if all(n_ in argv[0]["fields"] for n_ in names_) and all(d_ in self.f.derives(sd_) for d_ in ("PartialEq", "Eq", "Hash")):
+                argv = [{"v": "tuple", "xs": [argv[0]["fields"][n_] for n_ in names_], "src": argv[0].get("src")}] + list(argv[1:])
         if k == "hole" and rv.get("kind") == "field" and m == "push" and len(argv) == 1:
             fld = rv["field"]
             st.fields.setdefault(fld, [])
@@ -1660,6 +1671,17 @@ class Interp:
             return [(st, {"v": "sub"})]
         if k == "hole" and rv.get("kind") in ("param",) and rv.get("dyn") and True:
             return [(st, H("mgr", src(e), method=m, args=argv))]
+        if k == "struct" and rv.get("name") in self.f.structs:
+            # a method of a crate record type called on a value built a few lines above: looked into, `self` = that value
+            key0 = "%s::%s" % (rv["name"], m)
+            fn0 = self.f.fns.get(key0)
+            if fn0 is not None and not fn0.test and fn0.node.get("self") is not None and fn0.node.get("vis") != "pub" and key0 not in getattr(self, "_callstack", []):
+                stack = getattr(self, "_callstack", [])
+                self._callstack = stack + [key0]
+                try:
+                    return self.call_method(key0, argv, st, e, prefix="", self_val=rv)
+                finally:
+                    self._callstack = stack
         if k == "hole" and self.as_enumval(rv) is not None:
             en_ = self.as_enumval(rv)[0]
             key0 = "%s::%s" % (en_, m)
